@@ -76,12 +76,15 @@ def search(ctx):
 SPEC = {
     "id": "C12",
     "gens": ["MacroTables"],
-    "lean_modules": ["RsslVerif.Thm.C12"],
+    "lean_modules": ["RsslVerif.Thm.C12", "RsslVerif.Thm.C12Boundary"],
     "theorems": [T + n for n in [
         "source_shape", "expand_terminates", "expand_never_hangs", "object_like_is_substitution", "function_like_is_substitution",
         "define_undef_scoping", "macro_names_always_distinct", "api_defines_equal_file_defines",
         "expand_refines_spec_partial", "expand_refines_spec", "expand_refines_spec_decided", "object_like_refines_spec",
-        "include_is_paste", "pragma_once_once"]],
+        "include_is_paste", "pragma_once_once",
+        "differs_line_end_before_parenthesis", "differs_unused_argument_expanded", "differs_argument_repainted",
+        "differs_painted_function_name_reinvoked", "differs_painted_function_name_reinvoked_acyclic",
+        "differs_function_name_before_vanished_macro", "differs_empty_argument_next_to_paste"]],
     "harness": "c12",
     "nontrivial": nontrivial,
     "finding_key": finding_key,
